@@ -749,6 +749,8 @@ def unit_worker(ctx, t_end):
                 for idx, h in items[:DETERMINISM_N]:
                     first.append(run_one(sim, idx, h))
                     out['replays'] += 1
+                    if first[-1].get('dead') or first[-1].get('keyx') == 'crash':
+                        break       # squid died: what follows on this instance says nothing about determinism
                 sim = fresh(cfg)
                 out['baselines'][u['uid']] = sim.baseline
                 nviol = 0
@@ -763,7 +765,9 @@ def unit_worker(ctx, t_end):
                     gname = u['uid'].split(':')[0]
                     out['done_by_group'][gname] = out['done_by_group'].get(gname, 0) + 1
                     out['fd_checks'] += 3
-                    if n < len(first) and (first[n].get('transcript') != r.get('transcript') or first[n]['problems'] != r['problems']):
+                    if n < len(first) and (first[n].get('transcript') != r.get('transcript') or
+                                           ((first[n].get('keyx') != r.get('keyx')) if 'crash' in (first[n].get('keyx'), r.get('keyx'))
+                                            else first[n]['problems'] != r['problems'])):   # crash reports differ in pids/addresses
                         raise HarnessError('nondeterminism: %s gave different transcripts on two instances:\n%s\n%s' % (
                             hist_name(h), first[n].get('transcript', '')[:1500], r.get('transcript', '')[:1500]))
                     st = r.get('stats', {})
